@@ -53,6 +53,12 @@ pub struct Sc {
     /// the code area ends right after `bytes` (no NOP padding): instructions cut off by the end of the area
     #[serde(default)]
     pub no_pad: bool,
+    /// the data area was created larger and then shrunk to its size by mem_resize_section (stale bytes behind its end)
+    #[serde(default)]
+    pub shrunk: bool,
+    /// an inaccessible (PROT_NONE) area directly behind the data area
+    #[serde(default)]
+    pub neighbour: bool,
 }
 
 pub struct E5Engine;
@@ -632,11 +638,15 @@ fn gen_insn(mode: &str, ci: usize, shape: Option<usize>, fault: &str, r: &mut Rn
         flip_at: 0,
         poke,
         no_pad: false,
+        // an operand running past the end of its area: into nothing, into the stale tail of a shrunk
+        // area, or into an inaccessible neighbour (an enumerated axis of the straddle cells)
+        shrunk: fault == "straddle_area_end" && k % 3 == 1,
+        neighbour: fault == "straddle_area_end" && k % 3 == 2,
     })
 }
 
 fn trivial(mode: &str) -> Sc {
-    Sc { mode: mode.into(), code_name: "Nopd".into(), shape: "reg".into(), fault: "none".into(), bytes: "90".into(), gpr: vec![0, 0, 0, 0, 0, 0, STACK + 0x800, 0, 0, 0, 0, 0, 0, 0, 0, 0], xmm_seed: 1, flags: 0, fs: 0, gs: 0, data_seed: 1, prot_data: 3, prot_stack: 3, prot_code: 5, extra_steps: 0, flips: vec![], flip_at: 0, poke: vec![], no_pad: false }
+    Sc { mode: mode.into(), code_name: "Nopd".into(), shape: "reg".into(), fault: "none".into(), bytes: "90".into(), gpr: vec![0, 0, 0, 0, 0, 0, STACK + 0x800, 0, 0, 0, 0, 0, 0, 0, 0, 0], xmm_seed: 1, flags: 0, fs: 0, gs: 0, data_seed: 1, prot_data: 3, prot_stack: 3, prot_code: 5, extra_steps: 0, flips: vec![], flip_at: 0, poke: vec![], no_pad: false, shrunk: false, neighbour: false }
 }
 
 fn gen_c06(seed: u64, idx: u64, thorough: bool) -> Sc {
@@ -844,7 +854,16 @@ fn setup_masked(sc: &Sc, ctx: &mut Ctx, hooks: bool, only: Option<([bool; 16], [
     };
     let _ = real_len;
     let r: Result<Result<(), String>, Panicked> = catch(|| {
-        ax.mem_init_area(DATA, Rng::new(sc.data_seed).bytes(DATA_LEN as usize)).map_err(|e| e.to_string())?;
+        if sc.shrunk {
+            ax.mem_init_area(DATA, Rng::new(sc.data_seed).bytes(DATA_LEN as usize + 0x200)).map_err(|e| e.to_string())?;
+            ax.mem_resize_section(DATA, DATA_LEN).map_err(|e| e.to_string())?;
+        } else {
+            ax.mem_init_area(DATA, Rng::new(sc.data_seed).bytes(DATA_LEN as usize)).map_err(|e| e.to_string())?;
+        }
+        if sc.neighbour {
+            ax.mem_init_area(DATA + DATA_LEN, Rng::new(sc.data_seed ^ 9).bytes(0x100)).map_err(|e| e.to_string())?;
+            ax.mem_prot(DATA + DATA_LEN, 0).map_err(|e| e.to_string())?;
+        }
         ax.mem_init_area(STACK, Rng::new(sc.data_seed ^ 5).bytes(STACK_LEN as usize)).map_err(|e| e.to_string())?;
         for (a, v, n) in sc.poke.iter() {
             let _ = ax.mem_write_bytes(*a, &v.to_le_bytes()[..(*n as usize).min(8)]);
